@@ -241,6 +241,7 @@ TodayLiteral(q, val) == <<q>> \o HtmlEscape(val) \o <<q>>
 --------------------------------------------------------------------------------
 (* State machine: a configured value grows by one symbol per step.             *)
 CONSTANTS MaxLen,      \* symbols per value
+          SeqExtra,    \* symbols that may accompany a hostile sequence (before or after it)
           Slots        \* subset of {"endpoint","subscription","title","hname","hvalue","pname","pvalue"}
 VARIABLES slot, val, cost, tok
 vars == <<slot, val, cost, tok>>
@@ -259,13 +260,13 @@ HostileSeqs == { <<LT, SLASH>> \o Script \o <<GT>>,                           \*
                  <<AMP, HASH, 120, 50, 55, SEMI>>,                             \* &#x27;
                  <<BS, 117, 48, 48, 50, 55>>,                                  \* '
                  <<BS, 120, 50, 55>> }                                         \* \x27
-SeqCost == IF MaxLen > 2 THEN MaxLen - 2 ELSE 1       \* a sequence leaves room for two more symbols
+SeqCost == IF MaxLen > SeqExtra THEN MaxLen - SeqExtra ELSE 1       \* a sequence leaves room for SeqExtra more symbols
 
 Init == slot \in Slots /\ val = <<>> /\ cost = 0 /\ tok = TokInit
 AddChar(c) == /\ cost < MaxLen
               /\ val' = Append(val, c) /\ cost' = cost + 1 /\ tok' = TokStep(tok, c)
               /\ UNCHANGED slot
-AddSeq(s)  == /\ cost + SeqCost <= MaxLen /\ cost <= 2 /\ ~\E h \in HostileSeqs : Contains(val, h)
+AddSeq(s)  == /\ cost + SeqCost <= MaxLen /\ cost <= SeqExtra /\ ~\E h \in HostileSeqs : Contains(val, h)
               /\ val' = val \o s /\ cost' = cost + SeqCost /\ tok' = TokRun(tok, s, 1)
               /\ UNCHANGED slot
 Next == (\E c \in Alphabet : AddChar(c)) \/ (\E s \in HostileSeqs : AddSeq(s))
@@ -297,4 +298,20 @@ TypeOK == slot \in Slots /\ cost \in 0..MaxLen /\ tok.s \in PlainStates \cup
             {"esc", "escDash", "escDashDash", "escLt", "escEndOpen", "escEndName", "dEscStart",
              "desc", "descDash", "descDashDash", "descLt", "dEscEnd", "closed"}
 
+
+--------------------------------------------------------------------------------
+(* Unit checks of the reference operators (evaluated once when the module is loaded). *)
+ASSUME LexString(<<SQ, 97, BS, 120, 52, 49, BS, 117, 48, 48, 52, 50, BS, 117, LBRACE, 49, 70, 54, 48, 48, RBRACE, BS, 110, SQ>>).val
+         = <<97, 65, 66, 55357, 56832, 10>>                                             \* 'a\x41\u0042\u{1F600}\n'
+ASSUME LexString(<<SQ, 97, LS, SQ>>).val = <<97, LS>>                                    \* U+2028 is legal (ES2019)
+ASSUME ~LexString(<<SQ, 97, LF, SQ>>).ok /\ ~LexString(<<SQ, BS, SQ, 41, LF>>).ok        \* raw LF; 'x\' eats the quote
+ASSUME LexString(<<DQ, BS, LF, SQ, DQ>>).val = <<SQ>>                                    \* line continuation
+ASSUME ~LexString(<<SQ, BS, 49, SQ>>).ok /\ LexString(<<SQ, BS, 48, SQ>>).val = <<0>>    \* strict code: \1 is an error, \0 is NUL
+ASSUME LexString(<<SQ, AMP, HASH, 51, 57, SEMI, SQ>>).val = <<AMP, HASH, 51, 57, SEMI>>  \* no entity decoding in JS
+ASSUME EndsScript(<<LT, SLASH, 83, 67, 82, 73, 80, 84, SP>>) /\ ~EndsScript(<<LT, SLASH>> \o Script \o <<120, GT>>)
+ASSUME TokRun(TokInit, <<LT, BANG, DASH, DASH, LT>> \o Script \o <<GT, LT, SLASH>> \o Script \o <<GT>>, 1).s = "esc"   \* <!--<script></script> does not close
+ASSUME ScriptSafe(<<LT, BANG, DASH, DASH, GT>>)                                          \* <!--> returns to script data
+ASSUME TitleText(<<AMP, HASH, 51, 57, SEMI, AMP, HASH, 120, 50, 55, SEMI, AMP, 97, 109, 112, SEMI, AMP, 108, 116, 120, AMP, 120, LT, SLASH, 84, 105, 116, 108, 101, GT>>).text
+         = <<SQ, SQ, AMP, LT, 120, AMP, 120>>                                            \* &#39;&#x27;&amp;&ltx&x</Title>
+ASSUME Normalize(<<CR, LF, CR, 97>>) = <<LF, LF, 97>>
 =============================================================================
